@@ -36,8 +36,18 @@ macro_rules! impl_request_handler {
             }
 
             fn handle(&self, ctx: &mut LspContext, req: lsp_server::Request) -> MosResult<()> {
-                let method = RequestHandler::method(self);
-                let (id, params) = req.extract(method).unwrap();
+                // (parameters that are not what the method takes get an error for an answer)
+                let id = req.id.clone();
+                let params = match serde_json::from_value(req.params) {
+                    Ok(params) => params,
+                    Err(e) => {
+                        return ctx.send_error(
+                            id,
+                            lsp_server::ErrorCode::InvalidParams,
+                            e.to_string(),
+                        );
+                    }
+                };
                 let result = RequestHandler::handle(self, ctx, params)?;
                 ctx.send_response(id, result)?;
                 Ok(())
@@ -55,9 +65,14 @@ macro_rules! impl_notification_handler {
             }
 
             fn handle(&self, ctx: &mut LspContext, req: lsp_server::Notification) -> MosResult<()> {
-                let method = NotificationHandler::method(self);
-                let params = req.extract(method).unwrap();
-                NotificationHandler::handle(self, ctx, params)
+                // (a notification with parameters that are not what the method takes cannot be answered: it is ignored)
+                match serde_json::from_value(req.params) {
+                    Ok(params) => NotificationHandler::handle(self, ctx, params),
+                    Err(e) => {
+                        log::error!("Ignoring a malformed notification: {}", e);
+                        Ok(())
+                    }
+                }
             }
         }
     };
